@@ -392,10 +392,16 @@ func (m *MemoryBackend) Publish(client *Client, msg *packet.Message, ack Ack) er
 					return ErrQueueFull
 				}
 			} else if sess.activeClient != nil {
-				// wait for room since client is online
+				// add directly if there is room, as the session will keep the
+				// message even if the client is closing right now
 				select {
 				case queue(sess) <- msg:
-				case <-sess.activeClient.Closing():
+				default:
+					// wait for room since client is online
+					select {
+					case queue(sess) <- msg:
+					case <-sess.activeClient.Closing():
+					}
 				}
 			} else {
 				// ignore message if offline queue is full
